@@ -48,7 +48,7 @@ def check(R):
         st = stc.calls('persist::KvBlobStore::store')[0]
         ks = prims.sources(stc, st.d['a'][1])
         vs = prims.sources(stc, st.d['a'][2], through={'core::num::<impl u32>::to_le_bytes'})
-        R.expect('P10', stc.fn, 'the boundary is stored under GROUP_DATA_COUNTER_KEY', any(x[0] == 'constp' and x[1] == KEY for x in ks) and mentions(vs, 'boundary'),
+        R.expect('P10', stc.fn, 'the boundary is stored under GROUP_DATA_COUNTER_KEY', any(x[0] == 'constp' and x[1] == KEY for x in ks) and any(x[0] == 'upvar' and x[1].split('.')[0].lstrip('*') in {ig.local_name(l) for l in bnd} for x in vs),
                  'store(GROUP_DATA_COUNTER_KEY, boundary.to_le_bytes())', f'key {sorted(map(str, ks))[:3]} value {sorted(map(str, vs))[:4]}', stc.where(st.bb))
         result_used(R, 'P8', stc, ('persist::KvBlobStore::store',))
         uses = call_bbs(ig, EX + '::initiate_for_session')
